@@ -57,7 +57,37 @@ RULE = ("one matrix (one dense reference) serves 3-4 solves with different "
         "solver run with identical settings: status identical "
         "(reuse/status-not-updated), eigenvalues identical "
         "(reuse/result-of-previous-solve-returned), iteration count identical "
-        "(reuse/options-or-state-carried-over).")
+        "(reuse/options-or-state-carried-over). Family omp-env (18 / 72 cases "
+        "per environment, identical cases in every environment, asan): "
+        "matrix-free operators (MatrixFreeOperator subclass; symmetric "
+        "diagonally dominant and clustered, BSE form in HAM mode), sizes "
+        "40..160 (every 6th 200..300), neigen 1..12, DPR/OLSEN, min/safe/max, "
+        "loose/normal/strict, default search space and iteration limit, "
+        "solved with OMP_NUM_THREADS=4; the same with OMP_THREAD_LIMIT=2; with "
+        "OMP_DYNAMIC=true; from inside '#pragma omp parallel num_threads(3)' "
+        "(own matrix, operator, logger and solver per thread; nesting off), "
+        "the same with two active levels; dense operators under the first and "
+        "the fourth environment as control. Same oracle, keys "
+        "omp-env/<env>/...; thread counts delivered by the run-time are "
+        "recorded under omp_environments.")
+
+
+# OpenMP environments of the omp-env family: (name, process environment,
+# harness arguments). "--region" = solve() called from inside
+# "#pragma omp parallel num_threads(3)", one independent problem per thread.
+OMP_ENVS = [
+    ("a-threads4", {"OMP_NUM_THREADS": "4"}, []),
+    ("b-threads4-limit2", {"OMP_NUM_THREADS": "4", "OMP_THREAD_LIMIT": "2"},
+     []),
+    ("c-threads4-dynamic", {"OMP_NUM_THREADS": "4", "OMP_DYNAMIC": "true"},
+     []),
+    ("d-inside-parallel-region", {"OMP_NUM_THREADS": "4"}, ["--region", "1"]),
+    ("e-inside-parallel-region-two-levels", {"OMP_NUM_THREADS": "4"},
+     ["--region", "1", "--nested", "1"]),
+    ("f-dense-threads4", {"OMP_NUM_THREADS": "4"}, ["--dense", "1"]),
+    ("f-dense-inside-parallel-region", {"OMP_NUM_THREADS": "4"},
+     ["--region", "1", "--dense", "1"]),
+]
 
 
 def _h(fl):
@@ -110,12 +140,40 @@ def run(chk):
             [ha, "--mode", "reuse", "--seed", str(chk.seed), "--shard", str(s),
              "--n", str(per)], env=enva, timeout=3000))
         names.append("c09 solver-reuse shard %d" % s)
+    # OpenMP environments: the same matrix-free cases in one extra process per
+    # environment (all other C09 processes run with OMP_NUM_THREADS=1)
+    nomp = vf.tier_n(chk.tier, 18, 72)
+    omp_first = len(jobs)
+    for name, extra, args in OMP_ENVS:
+        envo = vf.lib_env("asan", extra)
+        for k in ("OMP_THREAD_LIMIT", "OMP_DYNAMIC", "OMP_NESTED",
+                  "OMP_MAX_ACTIVE_LEVELS"):
+            if k not in extra:
+                envo.pop(k, None)
+        jobs.append(lambda name=name, envo=envo, args=args: vf.run_proc(
+            [ha, "--mode", "ompenv", "--env", name, "--seed", str(chk.seed),
+             "--n", str(nomp)] + args, env=envo, timeout=3000))
+        names.append("c09 omp-env " + name)
     jobs.append(lambda: vf.run_proc([ha, "--mode", "adversarial"], env=enva,
                                     timeout=1200))
     names.append("c09 adversarial set")
-    for name, res in zip(names, vf.run_parallel(jobs)):
+    results = vf.run_parallel(jobs)
+    for name, res in zip(names, results):
         if not chk.ingest(res, name):
             chk.sanitizer["reports"] += 0 if res.rc == 0 else 1
+    # which environments were run and what the OpenMP run-time delivered
+    omp = {}
+    for (name, extra, args), res in zip(
+            OMP_ENVS, results[omp_first:omp_first + len(OMP_ENVS)]):
+        d = {"process_environment": extra, "harness_arguments": args}
+        for rec in res.records():
+            if rec.get("t") == "summary":
+                pre = "omp-env/%s/" % name
+                for k, v in rec.get("counters", {}).items():
+                    if k.startswith(pre):
+                        d[k[len(pre):]] = v
+        omp[name] = d
+    chk.extra["omp_environments"] = omp
     combos = sorted(k[6:] for k, v in chk.counters.items()
                     if k.startswith("combo:") and v > 0)
     chk.extra["option_combinations"] = len(combos)
